@@ -26,9 +26,7 @@ func (gen *generator) indexTopLevelEntities(old *ast.Module) error {
 			ident := localIdent(entity.Name())
 			name := getTypeName(ident)
 			if prev, ok := gen.old.typeDefs[name]; ok {
-				if _, ok := prev.Typ().(*ast.OpaqueType); !ok {
-					return errors.Errorf("type identifier %q already present; prev `%s`, new `%s`", enc.TypeName(name), text(prev), text(entity))
-				}
+				return errors.Errorf("type identifier %q already present; prev `%s`, new `%s`", enc.TypeName(name), text(prev), text(entity))
 			}
 			gen.old.typeDefs[name] = entity
 		case *ast.ComdatDef:
